@@ -17,7 +17,13 @@ from ..util import Result
 SIZES = [0, 1, 2, 63, 64, 65, 16383, 16384, 16385, 65535, 65536, 70000]
 MARKER = b"__FERROUS_STREAM_MARKER__"
 SPECIAL_BYTES = [b"", b"\x00", b"\xff\xfe\x00\x80", b"\r\n", MARKER, b"a b", b"\xfa", b"\xfe\x00", b"\xff", b"REDIS0009",
-                 b"%d" % ((1 << 63) - 1), b"-1", b"0"]
+                 b"%d" % ((1 << 63) - 1), b"-1", b"0",
+                 # integer look-alikes: real RDB writers store "integer" strings compactly (8/16/32 bit), so every
+                 # width boundary and every spelling that parses as an integer but is not its canonical text
+                 b"127", b"128", b"-128", b"-129", b"32767", b"32768", b"-32768", b"-32769", b"2147483647", b"2147483648",
+                 b"-2147483648", b"-2147483649", b"-9223372036854775808", b"9223372036854775808", b"12345678901234567890",
+                 b"007", b"00", b"+5", b"-0", b"+0", b" 1", b"1 ", b"0x10", b"1e3", b"1.0", b"01234", b"-007", b"1_000",
+                 b"\xc0", b"\xc1\x00", b"\xc3abc", b"\xfe", b"\xfd\x00\x00\x00\x00", b"\xfc"]
 SCORES = [b"0", b"-0", b"1", b"-1", b"1.5", b"inf", b"-inf", b"1e308", b"-1e308", b"5e-324", b"2.2250738585072014e-308",
           b"0.1", b"3.0000000000000004", b"123456789.123456789", b"-2.5e-10"]
 
